@@ -5,7 +5,7 @@ import tempfile
 import numpy as np
 
 from xv import bufmon
-from xv.typegen import kinds_in, shape_sig, DT
+from xv.typegen import kinds_in, shape_sig, DT, walk
 from xv.model import exc_kind, compare, set_model
 from xv.charness import (InProc, plan_calls, class_source_for, script_for, expected_text, standalone_source,
                          build_and_run, sanitizer_reports)
@@ -17,7 +17,8 @@ N_QUICK, N_THOROUGH = 3200, 80000
 T_QUICK, T_THOROUGH = 75, 1500
 FLOORS = {"types_compiled": 300, "setter_calls_inproc": 1500, "full_rereads": 1500, "byte_diffs_checked": 1500,
           "standalone_runs": 100, "standalone_setter_diffs": 500, "standalone_accessor_lines": 3000,
-          "flush_at_image_end": 50, "extreme_values": 500, "growths_between_setter_calls": 100}
+          "flush_at_image_end": 50, "extreme_values": 500, "growths_between_setter_calls": 100,
+          "setter_calls_on_types_with_readonly_fields": 150}
 RULE = ("random type AST with scalar leaves (depth<=3) x value; (a) in-process: each sampled generated setter is called "
         "through ContextCpu/cffi with type extremes and random values, then the WHOLE object is re-read against the "
         "model with exactly that leaf replaced and the buffer byte diff must be exactly the leaf's bytes, with forced "
@@ -68,7 +69,8 @@ def run_case(w, rng):
     c = new_case(w, rng, roots=("st", "st", "ar", "ar", "ur"), depth=rng.choice([1, 2, 2, 3]),
                  env_kw=dict(al=8 if standalone else rng.choice([8, 1, 16]), neighbours=0 if standalone else rng.choice([1, 2]),
                              kind="numpy" if standalone else None),
-                 modes=(None, "aligned") if standalone else (None, "aligned", "packed"), vg_kw=dict(max_dyn=3, nulls=0.2))
+                 modes=(None, "aligned") if standalone else (None, "aligned", "packed"), vg_kw=dict(max_dyn=3, nulls=0.2),
+                 tg_kw=dict(readonly=0.25))  # fields declared read-only for Python still have C setters
     t, env = c.t, c.env
     seen = set()
 
@@ -123,6 +125,8 @@ def run_case(w, rng):
                     break
                 cm = compare(t, mv, h, full=False)
                 w.count("full_rereads")
+                if cl.path and any(n.get("ro") for n in walk(t)):
+                    w.count("setter_calls_on_types_with_readonly_fields")
                 if cm.errs:
                     path, kind, detail, sig = cm.errs[0]
                     viol(f"reread-after-setter:{kind}|{sig}", f"after {cl.name}{cl.idx} = {val!r}: {path}: {detail}")
